@@ -28,6 +28,7 @@ fn replay_layout(li: usize, form: usize, key: KeyCode, mods: u16, mode: usize, w
         .with("observed_last", J::s(got))
 }
 
+#[allow(dead_code)]
 fn report_cube_panics(prop: &str, cube: &Cube, rep: &mut Report) {
     for (li, form, ki, mode, mods, msg) in cube.panics.iter() {
         rep.panics += 1;
@@ -56,7 +57,11 @@ fn cube_common(prop: &str, rep: &mut Report) -> Cube {
     rep.count("map_keycode_calls_recorded", cube.calls);
     rep.count("layout_objects", 30);
     rep.count("keys_in_universe", cube.keys.len() as u64);
-    report_cube_panics(prop, &cube, rep);
+    // A panicking call is recorded in the cube as the value PANIC and is judged like any other value by
+    // the property's own oracle, i.e. only where the property constrains that cell (attribution rule);
+    // C08 is the property that reports every panic.
+    rep.count("cells_that_panicked", cube.panics.len() as u64);
+    let _ = prop;
     cube
 }
 
@@ -98,6 +103,19 @@ pub fn run_c03(rep: &mut Report) {
                 if level == Level::AltGr && !constrained_key && acc.is_empty() {
                     continue;
                 }
+                // does this key show a distinct AltGr-level output in any state that selects the AltGr level?
+                let mut has_altgr = [false; 3];
+                if level == Level::AltGr {
+                    for form in 0..3 {
+                        for mode in 0..2 {
+                            for m in 0..512u16 {
+                                if selects(Level::AltGr, m, mode) && cube.get(li, form, ki, mode, m) != cube.get(li, form, ki, mode, m & !(B_RALT | B_LALT)) {
+                                    has_altgr[form] = true;
+                                }
+                            }
+                        }
+                    }
+                }
                 for form in 0..3 {
                     for mode in 0..2 {
                         for m in 0..512u16 {
@@ -111,11 +129,12 @@ pub fn run_c03(rep: &mut Report) {
                             let ok = match level {
                                 Level::Base | Level::Shift => gc.map(|c| acc.contains(&c)).unwrap_or(false),
                                 Level::AltGr => {
-                                    // only a *distinct* AltGr-level output is constrained
+                                    // only a *distinct* AltGr-level output is constrained – but a key that has one in
+                                    // some AltGr-selecting state must have it in every such state
                                     let base_m = m & !(B_RALT | B_LALT);
                                     let base_out = cube.get(li, form, ki, mode, base_m);
                                     if got == base_out {
-                                        true
+                                        !(has_altgr[form] && !acc.is_empty())
                                     } else if !acc.is_empty() {
                                         gc.map(|c| acc.contains(&c)).unwrap_or(false)
                                     } else {
@@ -283,7 +302,7 @@ pub fn run_c09(rep: &mut Report) {
     let mut letter_keys = 0u64;
     let mut distinct: BTreeSet<(usize, usize)> = BTreeSet::new();
     for li in 0..10 {
-        for form in 0..3 {
+        for form in 0..1 {
             for (ki, key) in cube.keys.iter().enumerate() {
                 // what the layout types on this key with no modifier (NumLock on, as after power-up)
                 let base = cube.get(li, form, ki, 1, B_NUMLOCK);
@@ -363,7 +382,7 @@ pub fn run_c09(rep: &mut Report) {
         }
     }
     rep.count("letter_keys_found_across_layouts", letter_keys);
-    rep.require("letter keys", letter_keys, 260);
+    rep.require("letter keys", letter_keys, 250);
     rep.distinct_nontrivial = distinct.len() as u64;
     rep.exhaustive = Some(true);
     rep.rule = "reference-free: a key is a letter key of a layout iff its observed unmodified output is a..z; for every modifier set with a Ctrl key and no Alt, mapping on, the output must be that letter's control character; \
@@ -391,7 +410,7 @@ pub fn run_c10(rep: &mut Report) {
     let mut national = BTreeSet::new();
     let mut distinct: BTreeSet<(usize, usize)> = BTreeSet::new();
     for li in 0..10 {
-        for form in 0..3 {
+        for form in 0..1 {
             for (ki, key) in cube.keys.iter().enumerate() {
                 let base = enc_char(cube.get(li, form, ki, 1, B_NUMLOCK));
                 let shifted = enc_char(cube.get(li, form, ki, 1, B_NUMLOCK | B_LSHIFT));
@@ -470,7 +489,7 @@ pub fn run_c10(rep: &mut Report) {
     }
     rep.count("letter_keys_found_across_layouts", letter_keys);
     rep.set_extra("national_letter_keys", J::strs(national.iter().cloned()));
-    rep.require("letter keys", letter_keys, 260);
+    rep.require("letter keys", letter_keys, 250);
     rep.distinct_nontrivial = distinct.len() as u64;
     rep.exhaustive = Some(true);
     rep.rule = "reference-free: letter key iff observed base output is a lowercase letter (Unicode) whose single-character uppercase is the observed shifted output; on letter keys every CapsLock-on modifier set must give what its Shift-inverted CapsLock-off twin gives, on all other keys what the same set without CapsLock gives; \
@@ -497,7 +516,7 @@ pub fn run_c11(rep: &mut Report) {
     let mut classes_seen: BTreeSet<(bool, bool, bool, bool, bool)> = BTreeSet::new();
     let mut distinct = 0u64;
     for li in 0..10 {
-        for form in 0..3 {
+        for form in 0..1 {
             for (ki, key) in cube.keys.iter().enumerate() {
                 let numpad = is_numpad_numlock_key(*key);
                 for mode in 0..2 {
@@ -602,7 +621,7 @@ pub fn run_c12(rep: &mut Report) {
     let cube = cube_common("C12", rep);
     let mut witnesses = 0u64;
     for li in 0..10 {
-        for form in 0..3 {
+        for form in 0..1 {
             let mut found: BTreeMap<char, (KeyCode, u16)> = BTreeMap::new();
             for (ki, key) in cube.keys.iter().enumerate() {
                 for m in [B_NUMLOCK, B_NUMLOCK | B_LSHIFT, B_NUMLOCK | B_RALT] {
@@ -664,7 +683,7 @@ pub fn run_c15(rep: &mut Report) {
     for li in 0..10 {
         let seps = decimal_seps(LAYOUT_NAMES[li]);
         let ret_i = cube.key_index(KeyCode::Return).unwrap();
-        for form in 0..3 {
+        for form in 0..1 {
             for mode in 0..2 {
                 for m in 0..512u16 {
                     let nl = m & B_NUMLOCK != 0;
@@ -902,7 +921,8 @@ pub fn run_c17(rep: &mut Report) {
     // by-reference wrapper through a Keyboard as well
     for li in 0..10 {
         let r = guarded(|| {
-            let mut kb = Keyboard::new(ScancodeSet2::new(), any_static(li), HandleControl::MapLettersToUnicode);
+            let any = any_value(li);
+            let mut kb = Keyboard::new(ScancodeSet2::new(), &any, HandleControl::MapLettersToUnicode);
             let bare = bare_dyn(li);
             let mut bad = 0;
             for k in cube.keys.iter() {
